@@ -308,8 +308,51 @@ fn gen_grow(len: usize, count: u64, seed: u64) {
     }
 }
 
+/// More simultaneously expired entries than one maintenance batch purges (100 on the
+/// single-threaded cache, 500 on the concurrent one): what is expired but not yet swept must
+/// stay invisible, whatever is looked up first.
+fn gen_batch(kind: &str, count: u64, seed: u64) {
+    use std::io::Write;
+    let out = std::io::stdout();
+    let mut o = std::io::BufWriter::new(out.lock());
+    let mut rng = Rng::new(seed);
+    let n: u32 = if kind == "unsync" { 130 } else { 540 };
+    for id in 0..count {
+        let (ttl, tti) = *rng.pick(&[(-1i64, 2i64), (3, -1), (3, 2), (2, 3)]);
+        let cfg = json!({"kind": kind, "cap": -1, "ttl": ttl, "tti": tti, "weigher": false,
+            "hasher": "mix", "nkeys": n, "lean": true, "seed": rng.below(1000)});
+        let mut ops: Vec<Value> = Vec::new();
+        for k in 1..=n {
+            ops.push(json!({"op": "Insert", "k": k, "v": k, "w": 1}));
+        }
+        if kind == "sync" {
+            ops.push(json!({"op": "Sync"}));
+        }
+        // some entries are read on the way: they move to the recent end
+        ops.push(json!({"op": "Advance", "d": 1}));
+        for _ in 0..4 {
+            ops.push(json!({"op": "Get", "k": 1 + rng.below(n as u64)}));
+        }
+        let dead = [ttl, tti].iter().cloned().filter(|d| *d >= 0).min().unwrap() as u64 + 1;
+        ops.push(json!({"op": "Advance", "d": dead}));
+        // the first lookups after the deadline, most of them at the recent end of the queues
+        for _ in 0..10 {
+            let k = if rng.chance(3, 4) { n - rng.below(25) as u32 } else { 1 + rng.below(n as u64) as u32 };
+            let op = if rng.chance(1, 2) { "Contains" } else { "Get" };
+            ops.push(json!({"op": op, "k": k}));
+        }
+        ops.push(json!({"op": "Iter"}));
+        writeln!(o, "{}", json!({"id": id, "cfg": cfg, "ops": ops})).unwrap();
+    }
+}
+
 pub fn cmd_gen(args: &[String]) {
     // gen <profile> <seed> <count> <len>
+    if args[0] == "unsync-batch" || args[0] == "sync-batch" {
+        let kind = if args[0] == "unsync-batch" { "unsync" } else { "sync" };
+        gen_batch(kind, args[2].parse().unwrap(), args[1].parse().unwrap());
+        return;
+    }
     if args[0] == "sync-grow" {
         gen_grow(args[3].parse().unwrap(), args[2].parse().unwrap(), args[1].parse().unwrap());
         return;
